@@ -619,6 +619,8 @@ class ClientHello(HelloMessage):
                 self.random = bytearray(zeroBytes) + self.random
             self.compression_methods = [0]  # Fake this value
             p.stopLengthCheck()
+            if p.getRemainingLength():
+                raise DecodeError("Trailing data in SSLv2 Client Hello")
         else:
             p.startLengthCheck(3)
             self.client_version = (p.get(1), p.get(1))
